@@ -17,6 +17,13 @@ SPEC = {
                       ("restart-explicit", "RestartExpl"), ("first-explicit", "FirstExpl"),
                       ("restart-bad-iat", "RestartBadIAT")]
     ] + [
+        # one ticket store, G goroutines storing / redeeming at once, concurrent reader of the file
+        {"name": "tickets-concurrent", "pkg": SS, "kind": "rapid", "run": "^TestVerifC18TicketsConcurrent$",
+         "quick": {"checks": 150, "shards": 1, "timeout": 300, "shrinktime": "5s"},
+         "thorough": {"checks": 1500, "shards": 8, "timeout": 900, "shrinktime": "20s"}},
+        {"name": "tickets-concurrent-race", "pkg": SS, "kind": "rapid", "run": "^TestVerifC18TicketsConcurrent$",
+         "quick": {"checks": 40, "shards": 1, "timeout": 300, "race": True, "shrinktime": "5s"},
+         "thorough": {"checks": 400, "shards": 4, "timeout": 900, "race": True, "shrinktime": "20s"}},
         {"name": "crash-tickets", "pkg": SS, "kind": "rapid", "run": "^TestVerifC18CrashTickets$",
          "quick": {"checks": 8, "shards": 1, "timeout": 300, "shrinktime": "4s"},
          "thorough": {"checks": 30, "shards": 8, "timeout": 1200, "shrinktime": "30s"}},
